@@ -266,6 +266,19 @@ impl FsCommand {
         let mut name = path
             .file_name()
             .expect("must be a regular file with a name");
+        // A directory entry holds at most 255 bytes on the common file systems: leave room
+        // for the suffix, otherwise a file with a long name could not be replaced at all.
+        #[cfg(unix)]
+        {
+            use std::os::unix::ffi::OsStringExt;
+            const MAX_NAME_LEN: usize = 255;
+            const SUFFIX_LEN: usize = 25;
+            if name.len() + SUFFIX_LEN > MAX_NAME_LEN {
+                let mut bytes = name.into_vec();
+                bytes.truncate(MAX_NAME_LEN - SUFFIX_LEN);
+                name = std::ffi::OsString::from_vec(bytes);
+            }
+        }
         name.push(".");
         name.push(
             rand::thread_rng()
